@@ -4,13 +4,13 @@
    (upper layer of DESIGN 2.1): mpsc, spsc (thread and coroutine receiver), mpmc. *)
 From Coq Require Import List Arith Sorted.
 Import ListNotations.
-Require MayV.Sync.ChanMpscModel MayV.Sync.ChanMpscInv MayV.Sync.ChanMpscThm MayV.Sync.ChanMpscAccept.
-Require MayV.Sync.ChanSpscModel MayV.Sync.ChanSpscInv MayV.Sync.ChanSpscThm MayV.Sync.ChanSpscAccept.
-Require MayV.Sync.ChanMpmcModel MayV.Sync.ChanMpmcInv MayV.Sync.ChanMpmcThm MayV.Sync.ChanMpmcAccept.
+Require MayV.Sync.ChanMpscModel MayV.Sync.ChanMpscInv MayV.Sync.ChanMpscThm MayV.Sync.ChanMpscAccept MayV.Sync.ChanMpscDrop.
+Require MayV.Sync.ChanSpscModel MayV.Sync.ChanSpscInv MayV.Sync.ChanSpscThm MayV.Sync.ChanSpscAccept MayV.Sync.ChanSpscDrop.
+Require MayV.Sync.ChanMpmcModel MayV.Sync.ChanMpmcInv MayV.Sync.ChanMpmcThm MayV.Sync.ChanMpmcAccept MayV.Sync.ChanMpmcDrop.
 
 (* ======================================== mpsc ======================================== *)
 Module Mpsc.
-Import MayV.Sync.ChanMpscModel MayV.Sync.ChanMpscInv MayV.Sync.ChanMpscThm MayV.Sync.ChanMpscAccept.
+Import MayV.Sync.ChanMpscModel MayV.Sync.ChanMpscInv MayV.Sync.ChanMpscThm MayV.Sync.ChanMpscAccept MayV.Sync.ChanMpscDrop.
 
 (* (i) the values pushed by successful sends are, in push order: what the receiver was handed (in that
    order), then what drop_port / the final free dropped, then what is still queued *)
@@ -23,6 +23,15 @@ Theorem C06_mpsc_exactly_once : forall s, Reach s ->
   NoDup (rcvd s ++ drpd s ++ q s) /\ (forall v, In v (sent s) <-> In v (rcvd s) \/ In v (drpd s) \/ In v (q s)).
 Proof. exact mpsc_exactly_once. Qed.
 Print Assumptions C06_mpsc_exactly_once.
+
+(* counted: an Ok-sent value occurs exactly once in received ++ dropped ++ still queued (received XOR dropped XOR
+   queued, never two of them, never twice); a value that was not sent occurs nowhere.  See C07.v for the freed channel
+   (nothing queued any more: received XOR dropped) and for where the drops happen *)
+Theorem C06_mpsc_received_xor_dropped : forall s v, Reach s ->
+  (In v (sent s) -> cnt v (rcvd s) + cnt v (drpd s) + cnt v (q s) = 1) /\
+  (~ In v (sent s) -> cnt v (rcvd s) + cnt v (drpd s) + cnt v (q s) = 0).
+Proof. exact mpsc_received_xor_dropped. Qed.
+Print Assumptions C06_mpsc_received_xor_dropped.
 
 (* per sender: handle a sent (a,0), (a,1), ... and the receiver got a prefix (a,0) ... (a,k-1), in order *)
 Theorem C06_mpsc_per_sender_order : forall s a, Reach s ->
@@ -56,7 +65,7 @@ End Mpsc.
 
 (* ======================================== spsc ======================================== *)
 Module Spsc.
-Import MayV.Sync.ChanSpscModel MayV.Sync.ChanSpscInv MayV.Sync.ChanSpscThm MayV.Sync.ChanSpscAccept.
+Import MayV.Sync.ChanSpscModel MayV.Sync.ChanSpscInv MayV.Sync.ChanSpscThm MayV.Sync.ChanSpscAccept MayV.Sync.ChanSpscDrop.
 
 Theorem C06_spsc_accounting : forall s, Reach true s -> sent s = rcvd s ++ drpd s ++ q s.
 Proof. exact spsc_accounting. Qed.
@@ -66,6 +75,12 @@ Theorem C06_spsc_exactly_once : forall s, Reach true s ->
   NoDup (rcvd s ++ drpd s ++ q s) /\ (forall v, In v (sent s) <-> In v (rcvd s) \/ In v (drpd s) \/ In v (q s)).
 Proof. exact spsc_exactly_once. Qed.
 Print Assumptions C06_spsc_exactly_once.
+
+Theorem C06_spsc_received_xor_dropped : forall s v, Reach true s ->
+  (In v (sent s) -> cnt v (rcvd s) + cnt v (drpd s) + cnt v (q s) = 1) /\
+  (~ In v (sent s) -> cnt v (rcvd s) + cnt v (drpd s) + cnt v (q s) = 0).
+Proof. exact spsc_received_xor_dropped. Qed.
+Print Assumptions C06_spsc_received_xor_dropped.
 
 (* the sender pushed 0, 1, 2, ...; the receiver got 0 ... k-1 in this order *)
 Theorem C06_spsc_order : forall s, Reach true s ->
@@ -105,7 +120,7 @@ End Spsc.
 
 (* ======================================== mpmc ======================================== *)
 Module Mpmc.
-Import MayV.Sync.ChanMpmcModel MayV.Sync.ChanMpmcInv MayV.Sync.ChanMpmcThm MayV.Sync.ChanMpmcAccept.
+Import MayV.Sync.ChanMpmcModel MayV.Sync.ChanMpmcInv MayV.Sync.ChanMpmcThm MayV.Sync.ChanMpmcAccept MayV.Sync.ChanMpmcDrop.
 
 Theorem C06_mpmc_accounting : forall s, Reach true true true s -> sent s = map snd (rlog s) ++ drpd s ++ q s.
 Proof. exact (mpmc_accounting true). Qed.
@@ -117,6 +132,12 @@ Theorem C06_mpmc_exactly_once : forall s, Reach true true true s ->
   (forall v, In v (sent s) <-> In v (map snd (rlog s)) \/ In v (drpd s) \/ In v (q s)).
 Proof. exact (mpmc_exactly_once true). Qed.
 Print Assumptions C06_mpmc_exactly_once.
+
+Theorem C06_mpmc_received_xor_dropped : forall s v, Reach true true true s ->
+  (In v (sent s) -> cnt v (recvd s) + cnt v (drpd s) + cnt v (q s) = 1) /\
+  (~ In v (sent s) -> cnt v (recvd s) + cnt v (drpd s) + cnt v (q s) = 0).
+Proof. exact (mpmc_received_xor_dropped true). Qed.
+Print Assumptions C06_mpmc_received_xor_dropped.
 
 (* per receiver r and sender a: the sequence numbers r got from a strictly increase *)
 Theorem C06_mpmc_per_receiver_order : forall s r a, Reach true true true s -> StronglySorted lt (got s r a).
